@@ -4,6 +4,8 @@ import json, os, glob, re
 V = os.path.dirname(os.path.dirname(os.path.abspath(__file__)))
 rows = []
 for d in sorted(glob.glob(os.path.join(V, "seeded", "*", ""))):
+    if not os.path.exists(os.path.join(d, "meta.json")):
+        continue        # seeded/benign*/: behaviour-preserving patches, listed in section 8
     m = json.load(open(os.path.join(d, "meta.json")))
     sid = os.path.basename(d.rstrip("/"))
     oc = m.get("our_check", {})
